@@ -113,6 +113,7 @@ void vp_selftest() {
     std::memset(ab, 0, sizeof ab); std::memset(sb, 0, sizeof sb); std::memset(db, 0, sizeof db); std::memset(tdb, 0, sizeof tdb); std::memset(eb, 0, sizeof eb);
     arena* a = (arena*)ab; arena_slot* s = (arena_slot*)sb; execution_data_ext* ed = (execution_data_ext*)eb;
     vp_arena_init(a, 2);
+    a->my_pool_state.test_and_set();   // real build of the selftest: advertise_new_work<wakeup> then finds the flag set and stops (no threading_control)
     vp_ed_link(ed, (task_dispatcher*)db, (thread_data*)tdb, a, s, 0);
     for (int i = 0; i < 4; i++) vp_task_init(T[i], tags[i]);
     vp_slot_init(s, 1, 4);
